@@ -13,6 +13,7 @@ chmod -R u+w "$S"
 cp $V/harness/compat/base_errors_cleanup_compat.go "$S/base/errors/cleanup_compat.go"
 cp $V/harness/compat/base_retry_maxretries_compat.go "$S/base/retry/maxretries_compat.go"
 cp $V/harness/compat/base_limitbuf_compat.go "$S/base/limitbuf/compat.go"
+cp $V/harness/compat/testsystem_rpchook.go "$S/bigmachine/testsystem/rpchook_verif.go"
 python3 - "$S" <<'PY'
 import sys,re
 S=sys.argv[1]
@@ -26,6 +27,14 @@ t=open(p).read()
 old='\tcase io.Reader:\n\t\tbody = arg\n'
 assert old in t
 new='\tcase func() (io.Reader, error):\n\t\tr, rerr := arg()\n\t\tif rerr != nil {\n\t\t\treturn rerr\n\t\t}\n\t\tbody = r\n\t\tcontentType = "application/octet-stream"\n'+old
+t=t.replace(old,new,1)
+open(p,'w').write(t)
+# testsystem: route every RPC through the kill hook (harness/compat/testsystem_rpchook.go)
+p=S+'/bigmachine/testsystem/testsystem.go'
+t=open(p).read()
+old='\t\tmux.Handle(bigmachine.RpcPrefix, server)\n\t\thttpServer := httptest.NewServer(mux)\n\t\tm := &bigmachine.Machine{'
+assert old in t, "testsystem.Start changed"
+new='\t\tvar m *bigmachine.Machine\n\t\tmux.Handle(bigmachine.RpcPrefix, hookHandler{s, &m, server})\n\t\thttpServer := httptest.NewServer(mux)\n\t\tm = &bigmachine.Machine{'
 t=t.replace(old,new,1)
 open(p,'w').write(t)
 PY
